@@ -46,7 +46,7 @@ def fmt(x):
 def solution_text(rng, n, db, rich=False):
     lines = ["SOLUTION %d" % n, " temp %s" % fmt(rng.choice([25, 25, 10, 35, 18.5])), " pH %s" % fmt(rng.uniform(5.5, 8.8))]
     if rng.random() < 0.3:
-        lines.append(" pe %s" % fmt(rng.uniform(-2, 10)))
+        lines.append(" pe %s" % fmt(rng.uniform(2, 10)))
     if rng.random() < 0.25:
         lines.append(" -water %s" % fmt(rng.choice([0.5, 2.0, 0.25, 1.3])))
     units = rng.choice(["mmol/kgw", "mmol/kgw", "mol/kgw", "mmol/L"])
@@ -54,19 +54,27 @@ def solution_text(rng, n, db, rich=False):
     lines.append(" units %s" % units)
     pool = ["Na", "K", "Ca", "Mg", "Cl", "S(6)", "C(4)", "Si"]
     if db in ("phreeqc.dat", "wateq4f.dat", "Amm.dat"):
-        pool += ["Sr", "Ba", "Fe", "N(5)"]
+        pool += ["Sr", "Ba", "N(5)"]
     if db == "pitzer.dat":
         pool = ["Na", "K", "Ca", "Mg", "Cl", "S(6)", "C(4)", "Sr", "Ba"]
     k = rng.randint(3, 7) if rich else rng.randint(2, 6)
     chosen = rng.sample(pool, min(k, len(pool)))
     if "Cl" not in chosen:
         chosen.append("Cl")
-    charge_on = rng.choice(["Cl", None, None, "pH"]) if "Cl" in chosen else None
+    if rich and "Na" not in chosen:
+        chosen.append("Na")
+    charge_on = rng.choice(["Cl", "Cl", None, None, None]) if "Cl" in chosen else None
+    z = {"Na": 1, "K": 1, "Ca": 2, "Mg": 2, "Cl": -1, "S(6)": -2, "C(4)": -1, "Si": 0, "Sr": 2, "Ba": 2, "N(5)": -1}
+    vals = {}
     for e in chosen:
         lo, hi = (0.001, 0.05) if e in ("Fe", "Al", "Ba", "Si", "Sr") else (0.1, 30)
-        v = rng.uniform(lo, hi) * scale
+        vals[e] = rng.uniform(lo, hi) * scale
+    net = sum(z.get(e, 0) * v for e, v in vals.items() if e != "Cl")
+    if charge_on == "Cl" and net <= 0:
+        charge_on = None                      # Cl cannot balance an excess of anions
+    for e in chosen:
         extra = " charge" if charge_on == e else ""
-        lines.append(" %s %s%s" % (e, fmt(v), extra))
+        lines.append(" %s %s%s" % (e, fmt(vals[e]), extra))
     if charge_on == "pH":
         lines[2] = lines[2] + " charge"
     return "\n".join(lines) + "\n", chosen
@@ -201,8 +209,7 @@ def surface_text(rng, n, soln, db):
         lines.append(" -cd_music")
         lines.append(" -capacitances %s %s" % (fmt(rng.choice([1.0, 0.9, 1.2])), fmt(rng.choice([5, 0.74, 2]))))
     elif variant == "ccm":
-        lines.append(" -ccm")
-        lines.append(" -capacitance %s" % fmt(rng.choice([1.0, 0.8, 1.4])))
+        lines.append(" -ccm %s" % fmt(rng.choice([1.0, 0.8, 1.4])))
     return "\n".join(lines) + "\n", ["surf:" + variant]
 
 
@@ -243,7 +250,7 @@ def kinetics_text(rng, n, db):
     lines = ["KINETICS %d" % n]
     tags = []
     for i in range(rng.randint(1, 2)):
-        rate = rng.choice(["lin", "lin", "sat", "grow"])
+        rate = rng.choice(["lin", "lin", "lin", "sat", "sat", "grow"])
         if i == 1 and rate in [l.strip() for l in lines]:
             rate = "lin" if " lin" not in lines else "grow"
         if (" " + rate) in lines:
@@ -252,7 +259,7 @@ def kinetics_text(rng, n, db):
         if rate == "sat":
             lines.append(" -formula Calcite 1")
         elif rate == "grow":
-            lines.append(" -formula %s" % rng.choice(["NaCl 1", "SiO2 1"]))
+            lines.append(" -formula NaCl 1")
         else:
             lines.append(" -formula %s" % rng.choice(["NaCl 1", "CaCl2 0.5 NaOH 1", "Gypsum 1", "KCl 2", "CH2O 1" if db != "pitzer.dat" else "KCl 1",
                                                      "Na2SO4:10H2O 1", "Ca(OH)2 1 CO2 0.5"]))
